@@ -1,6 +1,7 @@
 import Driver.Engine
 import Driver.Cg
 import Driver.Enc
+import Driver.Handlers
 
 open Driver
 
@@ -8,6 +9,7 @@ def dispatch (comp : String) (toks : List String) : String :=
   if comp == "engine" then handleEngine toks
   else if comp == "cg" then handleCg toks
   else if comp == "enc" then handleEnc toks
+  else if comp == "hcheck" then handleHCheck toks
   else "bad-op"
 
 partial def loop (h : IO.FS.Stream) (out : IO.FS.Stream) : IO Unit := do
